@@ -20,9 +20,11 @@ PROP = dict(
          "{dir, regular, symlink, hard link, fifo} x link targets {.., ../.., b, ../x, ../../out/secret, c/.., ...}; plus large inputs (300-entry "
          "archives, bodies of 32 KiB-1 MiB, 255-byte components, deep chains) and an exhaustive enumeration of 2-entry (thorough: a 12% sample of "
          "3-entry) archives over a 5-name x 4-target alphabet; every archive is written with archive/tar + gzip and extracted by the real "
-         "UntarDirectory; the full listing of the sandbox (kinds, link targets, contents, inode sharing) is compared with the Lean model; "
+         "UntarDirectory and (a quarter / a seventh of the archives) by the HTTP upload extractor health.extractTarWithFallback, as gzip or as plain tar; "
+         "structured chains re-use a name across entry kinds (empty directory replaced by a symlink / hard link, link replaced by a directory or "
+         "file) with link targets built from earlier link names plus '/..' suffixes and later entries below the replaced name; the full listing of the sandbox (kinds, link targets, contents, inode sharing) is compared with the Lean model; "
          "non-trivial = the archive was not refused at its first entry",
-    nontrivial=lambda op, out: op.startswith("untar") and ("w/d/" in out),
+    nontrivial=lambda op, out: op.startswith("untar") and ("w/d/" in out),  # untar / untarh / untarhp
     trusted_base=[
         "the filesystem (path resolution with symbolic links, mkdir/open/unlink/rmdir/symlink/link, os.MkdirAll, os.Remove) is MODELLED in "
         "MM/Model/C27.lean and validated against the real OS by the correspondence run only",
@@ -30,6 +32,8 @@ PROP = dict(
         "component names are abstracted to numbers ('.' and empty components dropped, '..' distinguished); filepath.Clean/Join/Rel on them is modelled",
     ],
     assumptions=[
+        "internal/health/server.go extractTarWithFallback is a call to filetransfer.UntarDirectoryAuto = the same extraction loop behind a gzip-or-plain "
+        "reader (checked textually on every run by props/C27.py extra, and behaviourally by the untarh / untarhp ops)",
         "hypothesis Inv of C27_statement: the filesystem is a tree; the destination exists and neither it nor an ancestor is a symbolic link; "
         "no inode is hard-linked both below the destination and outside it; (symbolic links of any shape may pre-exist anywhere)",
         "no other process changes the tree during the extraction",
@@ -48,3 +52,27 @@ PROP = dict(
         technique="Lean 4 proof (invariant over the entry loop; lexical-resolution lemma for symlink-free prefixes) + differential correspondence harness on real directories",
     ),
 )
+
+
+import os, re
+
+
+def extra(c):
+    """Tie fact for the second anchor: the HTTP directory-upload extractor must BE the verified extractor
+    (a call to filetransfer.UntarDirectoryAuto, no filesystem or tar code of its own), and UntarDirectory /
+    UntarDirectoryAuto must share one extraction loop."""
+    import vlib
+    try:
+        srv = open(os.path.join(vlib.REPO, "internal/health/server.go")).read()
+        tar = open(os.path.join(vlib.REPO, "internal/filetransfer/tar.go")).read()
+    except OSError as e:
+        c.oblige("health-extractor-delegates", "tie", False, str(e))
+        return
+    m = re.search(r"func extractTarWithFallback\(r io\.Reader, destDir string\) error \{\n(.*?)\n\}\n", srv, re.S)
+    body = m.group(1) if m else ""
+    ok = bool(m) and "filetransfer.UntarDirectoryAuto(r, destDir)" in body and not re.search(r"\bos\.|tar\.NewReader|filepath\.", body)
+    ok2 = ("func UntarDirectory(r io.Reader, destDir string) error {\n\treturn untarDirectory(r, destDir, true)\n}" in tar
+           and "func UntarDirectoryAuto(r io.Reader, destDir string) error {\n\treturn untarDirectory(r, destDir, false)\n}" in tar)
+    c.oblige("health-extractor-delegates", "tie", ok and ok2,
+             "" if ok and ok2 else "extractTarWithFallback is not a plain call to filetransfer.UntarDirectoryAuto (or the two entry points no longer share "
+             "untarDirectory): the C27 model does not cover its own extraction code; body: " + body[:300])
